@@ -10,14 +10,16 @@ import (
 
 // ---- CORS (C11 / C12)
 var corsOrigins = [][]string{nil, {"*"}, {"https://a.com", "https://b.com"}, {"https://a.com", "*"}, {"https://a.com"}}
-var corsAllowH = [][]string{nil, {"*"}, {"Content-Type", "X-Token"}, {"X-Token"}}
+var corsAllowH = [][]string{nil, {"*"}, {"Content-Type", "X-Token"}, {"X-Token"}, {"Content-Type", "authorization", "X-Token"}, {"x-token", "Content-Type", "X-Request-Id-Token"}}
 var corsExposed = [][]string{nil, {"X-Exp", "X-Other"}}
 var corsAges = []string{"0", "-1", "50", "3600"}
 
-var reqOrigins = []string{"", "https://a.com", "https://b.com", "https://c.com", "HTTPS://A.COM", "*", "null", "https://a.com/"}
+var reqOrigins = []string{"", "https://a.com", "https://b.com", "https://c.com", "HTTPS://A.COM", "*", "null", "https://a.com/",
+	"https://c.com\x1fhttps://a.com", "https://a.com\x1fhttps://c.com"}
 var reqACRM = []string{"", "", "GET", "POST", "PUT", "HEAD", "OPTIONS", "junk", "get", "TRACE", "DELETE"}
 var reqACRH = []string{"", "", "Content-Type", "content-type", "CONTENT-TYPE, x-token", " Content-Type ,X-Token", "X-Other",
-	"Content-Type,,X-Token", ",", "Content-Type, X-Evil", "x-token", "X-Token,Content-Type", " ", "Authorization"}
+	"Content-Type,,X-Token", ",", "Content-Type, X-Evil", "x-token", "X-Token,Content-Type", " ", "Authorization", "authorization", "AUTHORIZATION, x-token",
+	"X-Request-Id", "x-request-id-token", "X-Tok"}
 var reqMethods = []string{"GET", "HEAD", "OPTIONS", "OPTIONS", "OPTIONS", "PUT", "POST", "TRACE", "DELETE", "", "BOGUS"}
 var reqPaths = []string{"/a", "/a", "/b/5", "/nope", "*", "/b/x/y"}
 
@@ -46,8 +48,20 @@ func genCORS(r *rand.Rand, w *W) [][]string {
 		ops = append(ops, append([]string{"remove", "r", "/a"}, list("POST")...))
 	}
 	w.Count("cors-origins-" + itoa(len(og)))
+	hid := 2
 	for i := 0; i < 40; i++ {
 		ops = append(ops, []string{"creq", pick(r, reqMethods), pick(r, reqPaths), pick(r, reqOrigins), pick(r, reqACRM), pick(r, reqACRH)})
+		if r.Intn(12) == 0 { // the route's method set changes between preflights
+			hid++
+			p := pick(r, []string{"/a", "/b/{id}"})
+			if r.Intn(2) == 0 {
+				ops = append(ops, append([]string{"handle", "r", p, "h" + itoa(hid)}, append(list(), list(pick(r, []string{"PUT", "DELETE", "PATCH", "POST", "GET"}))...)...))
+			} else {
+				ops = append(ops, append([]string{"remove", "r", p}, list(pick(r, []string{"PUT", "DELETE", "POST", "GET"}))...))
+			}
+			ops = append(ops, []string{"creq", "OPTIONS", "/a", "https://a.com", pick(r, []string{"GET", "PUT", "POST", "DELETE"}), ""},
+				[]string{"creq", "OPTIONS", "/b/5", "https://a.com", pick(r, []string{"GET", "PUT", "POST", "DELETE"}), ""})
+		}
 	}
 	return ops
 }
@@ -104,6 +118,20 @@ func genC08(r *rand.Rand, w *W) [][]string {
 			evs := genScript(r)
 			ops = append(ops, append([]string{"script", path}, list(evs...)...))
 		}
+	}
+	if r.Intn(4) == 0 {
+		// an interior route emptied by an explicit method list and registered again
+		ms := pick(r, [][]string{{"GET"}, {"POST", "GET"}, {"PUT"}})
+		hid++
+		ops = append(ops, append([]string{"handle", "r", "/a", "h" + itoa(hid)}, append(list(), list(ms...)...)...))
+		hid++
+		ops = append(ops, append([]string{"handle", "r", "/a/c", "h" + itoa(hid)}, append(list(), list("GET")...)...))
+		ops = append(ops, append([]string{"remove", "r", "/a"}, list(ms...)...))
+		probe()
+		hid++
+		ops = append(ops, append([]string{"handle", "r", "/a", "h" + itoa(hid)}, append(list(), list(pick(r, []string{"GET", "POST"}))...)...))
+		probe()
+		w.Count("shape-emptied-interior-route")
 	}
 	n := 2 + r.Intn(6)
 	for i := 0; i < n; i++ {
